@@ -8,6 +8,7 @@ from scen import C, e, n, op, scn, src, sub
 
 PID = "C13"
 ORACLE = "c13"
+TIE_ORACLES = ["c13k"]     # implementation = ConnK (the automaton the theorems are about)
 RULE = ("call histories over {subscribe_i, unsubscribe_i, connect, disconnect, source emits v, source completes/errors} with up to 3 "
         "subscribers on publish / ref_count / replay, for a hot source (driven step by step) and for cold sources that emit synchronously "
         "inside connect / first subscribe; also subscribers that leave early through a downstream operator (judged by correspondence); "
